@@ -65,6 +65,8 @@ def case(draw, tier):
                          draw(st.sampled_from(["0", "0.0", "1.5", "-0.0", "3", "1e-9"]))]
     if kind == "handwritten":
         c["fmt"] = draw(st.lists(st.integers(0, 5), min_size=8, max_size=8))
+    if kind == "roundtrip" and draw(st.integers(0, 4)) == 0:
+        c["numpy_values"] = True
     return c
 
 
@@ -88,7 +90,13 @@ def build(spec):
                 op = p.new_operator(shared if o["parents"] else None)
             else:
                 op = p.new_operator([ops[j] for j in o["parents"]] or None)
-            op.add_segment(Segment(baseline_cpu_seconds=o["cpu"], cpu_scaling=o["law"], memory_gb=o["mem"], storage_read_gb=o["read"]))
+            if spec.get("numpy_values") and k % 3 == 0:
+                # the same numbers handed over as numpy scalars (what arithmetic on numpy arrays or a numpy RNG yields)
+                import numpy as np
+                op.add_segment(Segment(baseline_cpu_seconds=np.float64(o["cpu"]), cpu_scaling=o["law"],
+                                       memory_gb=None if o["mem"] is None else np.float64(o["mem"]), storage_read_gb=np.float64(o["read"])))
+            else:
+                op.add_segment(Segment(baseline_cpu_seconds=o["cpu"], cpu_scaling=o["law"], memory_gb=o["mem"], storage_read_gb=o["read"]))
             ops.append(op)
         shared.clear()
         by_tick.setdefault(ps["tick"], []).append(p)
@@ -219,6 +227,8 @@ def run_case(spec):
     if len({p["tick"] for p in pipes}) < len(pipes):
         out.label("two_pipelines_one_arrival")
     out.label(spec["kind"])
+    if spec.get("numpy_values"):
+        out.label("numpy_scalar_values")
     out.label("hyp")
 
     try:
@@ -266,7 +276,7 @@ def run_case(spec):
             rows[target]["arrival_seconds"] = val
         elif rule == "unknown_priority":
             target = firsts[pi % len(firsts)]
-            rows[target]["priority"] = ["URGENT", "query", "Batch", "BATCH"][oi % 4]
+            rows[target]["priority"] = ["URGENT", "query", "Batch", "BATCH", "mro", "name", "__members__", "__name__", "value", "1"][oi % 10]
         elif rule == "unknown_law":
             target = (pi * 7 + oi) % len(rows)
             rows[target]["cpu_scaling"] = ["cubic", "CONST", "linear", "linear5"][oi % 4]
